@@ -86,17 +86,18 @@ func (msg *Message) UnmarshalXML(d *xml.Decoder, start xml.StartElement) error {
 	msg.XMLName = start.Name
 
 	// Extract packet attributes
+	// The addressing attributes are the unqualified ones: x:to, xmlns:from and the like are something else
 	for _, attr := range start.Attr {
-		if attr.Name.Local == "id" {
+		if attr.Name.Space == "" && attr.Name.Local == "id" {
 			msg.Id = attr.Value
 		}
-		if attr.Name.Local == "type" {
+		if attr.Name.Space == "" && attr.Name.Local == "type" {
 			msg.Type = StanzaType(attr.Value)
 		}
-		if attr.Name.Local == "to" {
+		if attr.Name.Space == "" && attr.Name.Local == "to" {
 			msg.To = attr.Value
 		}
-		if attr.Name.Local == "from" {
+		if attr.Name.Space == "" && attr.Name.Local == "from" {
 			msg.From = attr.Value
 		}
 		if attr.Name.Local == "lang" {
